@@ -32,11 +32,7 @@ def prependFlags : List UInt8 := [120, 75, 76, 83]
 def dataFlags : List UInt8 := [52, 51, 55, 53, 54, 49, 48, 0, 50]
 
 def two63 : Nat := 9223372036854775808
-def two64 : Nat := 18446744073709551616
 def maxInt63 : Nat := 9223372036854775807
-
-/-- two's complement wrap to int64, as Go's int64 arithmetic does -/
-def wrap64 (x : Int) : Int := (x + (two63 : Int)) % (two64 : Int) - (two63 : Int)
 
 /-! ### parseNumber -/
 
@@ -68,26 +64,32 @@ def octLoop : Bytes → Nat → Option Nat
 
 def parseOctal (s : Bytes) : Option Nat := if s.isEmpty then none else octLoop s 0
 
+/-- the base-256 branch; `neg` = the inversion mask is 0xff -/
+def parseBinary (b : Bytes) (neg : Bool) : Option Int :=
+  match binLoop (if neg then 0xff else 0) b true 0 with
+  | none => none
+  | some x =>
+    if x ≥ two63 then none
+    else if neg then some (-(x : Int) - 1) else some (x : Int)
+
+/-- the octal text branch -/
+def parseText (b : Bytes) : Option Int :=
+  if (trim b).isEmpty then some 0
+  else match parseOctal (cstring (trim b)) with
+    | none => none
+    | some n => some (n : Int)
+
 /-- `parseNumber`: `none` stands for any error. -/
 def parseNumber (b : Bytes) : Option Int :=
   match b with
   | c0 :: _ =>
-    if c0 &&& 0x80 != 0 then
-      let inv : UInt8 := if c0 &&& 0x40 != 0 then 0xff else 0
-      match binLoop inv b true 0 with
-      | none => none
-      | some x =>
-        if x ≥ two63 then none
-        else if inv == 0xff then some (-(x : Int) - 1) else some (x : Int)
-    else
-      let t := trim b
-      if t.isEmpty then some 0 else (parseOctal (cstring t)).map (fun n => (n : Int))
+    if c0 &&& 0x80 != 0 then parseBinary b (c0 &&& 0x40 != 0) else parseText b
   | [] => some 0
 
 /-! ### one header block -/
 
 inductive Err
-  | shortRead | unexpectedEOF | readErr | trailer | magic | version | number | negSize
+  | shortRead | unexpectedEOF | readErr | trailer | magic | version | number | negSize | truncated
   deriving Repr, DecidableEq
 
 /-- Is the error one that `errors.Is(err, ErrFormat)` reports? -/
@@ -96,8 +98,8 @@ def Err.isFormat : Err → Bool
   | _ => true
 
 structure Segment where
-  start : Int
-  size : Int
+  start : Nat
+  size : Nat
   deriving Repr, DecidableEq
 
 /-- what the typeflag arm of the final switch does -/
@@ -118,12 +120,11 @@ def checkMagic (b : Bytes) : Option Err :=
   else if slice b versionOff 2 != version00 then some .version
   else none
 
-/-- Outcome of looking at one non-zero 512-byte block as a header: the signed
-    size in blocks (Go's truncated division, rounded up for a remainder) and
-    the class of the typeflag.  `guard` = the `sz < 0` check of the fix. -/
+/-- Outcome of looking at one non-zero 512-byte block as a header: the size
+    field and the class of the typeflag.  `guard` = the `sz < 0` check of the fix. -/
 inductive Hdr
   | fail (e : Err)
-  | next (nBlk : Int) (cls : Cls)
+  | next (sz : Int) (cls : Cls)
   deriving Repr, DecidableEq
 
 def header (guard : Bool) (b : Bytes) : Hdr :=
@@ -134,9 +135,10 @@ def header (guard : Bool) (b : Bytes) : Hdr :=
     | none => .fail .number
     | some sz =>
       if guard && sz < 0 then .fail .negSize
-      else
-        let nBlk := Int.tdiv sz 512 + (if Int.tmod sz 512 != 0 then 1 else 0)
-        .next nBlk (classify ((b.drop typeflagOff).headD 0))
+      else .next sz (classify ((b.drop typeflagOff).headD 0))
+
+/-- `nBlk := sz / blockSz; if sz%blockSz != 0 { nBlk++ }` with Go's truncated division -/
+def nBlkOf (sz : Int) : Int := Int.tdiv sz 512 + (if Int.tmod sz 512 != 0 then 1 else 0)
 
 def isZeroBlock (b : Bytes) : Bool := b.all (· == 0)
 
@@ -152,14 +154,16 @@ def Res.cons (s : Segment) (r : Res) : Res :=
   { r with out := r.out.map (s :: ·) }
 
 def Res.tick (r : Res) : Res := { r with reads := r.reads + 1 }
+def Res.ticks (n : Nat) (r : Res) : Res := { r with reads := r.reads + n }
 
 /-- `rest` is the input from block `blk` on (empty when `blk` is past the end),
-    `cur` the start block of the current segment. -/
+    `cur` the start block of the current segment.
+
+    int64 overflow of `blk * blockSz` is not modelled: after the check that the
+    last content byte of every entry is readable, every block number the loop
+    reaches is at most (input length + 511) / 512. -/
 def scan (rest : Bytes) (blk cur : Nat) (zeroes : Bool) : Res :=
-  if blk * 512 ≥ two63 then
-    -- `off := blk * blockSz` has overflowed int64: ReadAt reports a (non-EOF) error
-    ⟨.error .readErr, 1⟩
-  else if _h512 : rest.length < 512 then
+  if _h512 : rest.length < 512 then
     if rest.length = 0 then ⟨.ok [], 1⟩          -- n == 0, io.EOF: break Scan
     else ⟨.error .unexpectedEOF, 1⟩
   else
@@ -171,16 +175,20 @@ def scan (rest : Bytes) (blk cur : Nat) (zeroes : Bool) : Res :=
     else
       match header true b with
       | .fail e => ⟨.error e, 1⟩
-      | .next nBlk cls =>
-        let adv := 1 + nBlk.toNat
-        let blk' := blk + adv
-        let rest' := rest.drop (adv * 512)
-        match cls with
-        | .prepend => (scan rest' blk' cur false).tick
-        | .other => (scan rest' blk' blk' false).tick
-        | .data =>
-          let seg : Segment := ⟨(cur * 512 : Nat), wrap64 (((blk' - cur : Nat) : Int) * 512)⟩
-          ((scan rest' blk' blk' false).cons seg).tick
+      | .next sz cls =>
+        if 0 < sz ∧ rest.length < 512 + sz.toNat then
+          ⟨.error .truncated, 2⟩                  -- the last content byte is not there
+        else
+          let probe := if 0 < sz then 1 else 0     -- the one-byte read of that check
+          let adv := 1 + (nBlkOf sz).toNat
+          let blk' := blk + adv
+          let rest' := rest.drop (adv * 512)
+          match cls with
+          | .prepend => (scan rest' blk' cur false).ticks (1 + probe)
+          | .other => (scan rest' blk' blk' false).ticks (1 + probe)
+          | .data =>
+            let seg : Segment := ⟨cur * 512, (blk' - cur) * 512⟩
+            ((scan rest' blk' blk' false).cons seg).ticks (1 + probe)
 termination_by (rest.length, if zeroes then 0 else 1)
 decreasing_by
   · simp_wf
@@ -211,8 +219,8 @@ def iterUnguarded (b : Bytes) (st : St) : Option St :=
   else if st.zeroes then none
   else match header false b with
     | .fail _ => none
-    | .next nBlk cls =>
-      let blk' := st.blk + 1 + nBlk
+    | .next sz cls =>
+      let blk' := st.blk + 1 + nBlkOf sz
       match cls with
       | .prepend => some { st with blk := blk' }
       | .other => some { st with blk := blk', cur := blk' }
